@@ -40,7 +40,7 @@ def main():
     results = json.load(open(results_path)) if os.path.exists(results_path) else {}
     tier = os.environ.get("SEED_TIER", "quick")
     if sys.argv[1] == "all":
-        seeds = sorted(s for s in os.listdir(SEEDED) if os.path.isdir(os.path.join(SEEDED, s)))
+        seeds = sorted(s for s in os.listdir(SEEDED) if os.path.isfile(os.path.join(SEEDED, s, "meta.json")))
         jobs = [(s, None) for s in seeds]
     else:
         jobs = [(sys.argv[2], sys.argv[3:] or None)]
@@ -52,7 +52,7 @@ def main():
             if "checks" in prev and "checks" in r:
                 prev["checks"].update(r["checks"]); r["checks"] = prev["checks"]
             results[key] = r
-    json.dump(results, open(results_path, "w"), indent=1, sort_keys=True)
+            json.dump(results, open(results_path, "w"), indent=1, sort_keys=True)
     return 0
 
 sys.exit(main())
